@@ -113,6 +113,9 @@ func checkCase(c Case) (out evid.Outcome) {
 			qr := c.Reqs[i]
 			q := rt.Req{M: unq(qr.M), P: unq(qr.P), H: qr.H, Wire: qr.W}
 			h := serveOn(fresh, q, qr)
+			if _, boom := h.Panic.(rt.Boom); boom {
+				h.Panic = nil
+			}
 			if mode == "empty" && h.Handler < 0 && h.Panic == nil {
 				h.NotFound = true
 			}
@@ -154,6 +157,16 @@ func checkCase(c Case) (out evid.Outcome) {
 			out.Classes = append(out.Classes, "long-path")
 		}
 		desc := fmt.Sprintf("%q %s", m, strconv.QuoteToASCII(clip(p)))
+		if _, boom := hit.Panic.(rt.Boom); boom {
+			// the chosen route's own handler panicked and nothing recovers: that
+			// is the application's panic, not the router's. It comes out of
+			// ServeHTTP - or not -, but it is no reason to start another chain
+			hit.Panic = nil
+			out.Classes = append(out.Classes, "handler-of-the-chosen-route-panics")
+			if hit.NotFound {
+				return fail(out, "both-or-neither", "%s: the handler of route #%d panicked and the not-found chain ran as well (chains started: %d); routes %v", desc, hit.Handler, hit.Chains, c.Regs)
+			}
+		}
 		if hit.Panic != nil {
 			return fail(out, "panic", "ServeHTTP panicked on %s: %v; routes %v", desc, hit.Panic, c.Regs)
 		}
@@ -167,6 +180,9 @@ func checkCase(c Case) (out evid.Outcome) {
 			return fail(out, "unknown-method-dispatched", "%s: unknown method was dispatched to handler #%d", desc, hit.Handler)
 		}
 		again := serve()
+		if _, boom := again.Panic.(rt.Boom); boom {
+			again.Panic = nil
+		}
 		if !reflect.DeepEqual(hit, again) {
 			return fail(out, "nondeterministic", "%s: first outcome %+v, second outcome %+v", desc, hit, again)
 		}
@@ -345,6 +361,9 @@ func genCase(t *rapid.T) Case {
 	c.EmptyNotFound = rapid.IntRange(0, 5).Draw(t, "enf") == 0
 	// some routes are header-constrained
 	for i := range c.Regs {
+		if rapid.IntRange(0, 9).Draw(t, "boom") == 0 {
+			c.Regs[i].Boom = true
+		}
 		if rapid.IntRange(0, 7).Draw(t, "cleared") == 0 {
 			// Headers() with no pairs: the route is unconstrained (again)
 			c.Regs[i].HC = true
